@@ -356,7 +356,7 @@ def _shrink_seq(case, clause, budget=45):
     while i >= 0 and tries < budget:
         cand = dict(cur, steps=cur["steps"][:i] + cur["steps"][i + 1 :])
         tries += 1
-        if cand["steps"] and _seq_fails(cand, clause):
+        if cand["steps"] and (sites.valid_seq(cand) or not sites.valid_seq(case)) and _seq_fails(cand, clause):
             cur = cand
         i -= 1
     for k, st in enumerate(cur["steps"]):
@@ -512,6 +512,13 @@ def run_sites(ctx):
     evaluate_sites(ctx, sites.exhaustive_keys())
     ctx.note("call_site_exhaustive_keys", "Row(dict) through a class for every field tuple of length 0..2 over '1','None','x' x every dictionary over the keys '1', 1, 'None', None with at most three entries in every insertion order")
     evaluate_sites(ctx, [sites.keys_seq(ctx.rng, "%d_%d" % (ctx.seed, k)) for k in range(ctx.scale(600, 10000))])
+    # results handed out, edited by the caller, asked for again (the same request, spelt the same way or another)
+    evaluate_sites(ctx, sites.exhaustive_reuse())
+    evaluate_sites(ctx, [sites.reuse_seq(ctx.rng, "%d_%d" % (ctx.seed, k)) for k in range(ctx.scale(700, 12000))])
+    ctx.note("call_site_result_reuse", "call -> the caller edits the returned array in place (fill, slice assignment, item, reverse, sort, +=, "
+             "upper-casing; on the array or on one column of it) -> the same request again (same spelling or another: name/position, "
+             "limit absent/None/-1/row count/beyond, frame[...]), with appends, displays, a twin frame in between; every result judged by "
+             "result[i][j] = rows[j][columns[i]]; whether two results share storage is recorded, not judged")
     nseq = ctx.scale(2000, 40000)
     for start in range(0, nseq, 3000):
         evaluate_sites(ctx, [sites.random_seq(ctx.rng, "%d_%d" % (ctx.seed, start + k)) for k in range(min(3000, nseq - start))])
@@ -580,7 +587,7 @@ def random_cases(rng, n):
         else:
             vals = [rng.choice([None, 0, 12345, "abc", "é" * rng.randint(0, 9), 1.5, -0.25, [1, 2, 3], "x" * rng.randint(0, 40), True,
                                 {"__float__": "nan"}, {"__float__": "-inf"}, -0.0, {"__bytes__": "c3a9"}, 10**30, "日本語" * rng.randint(0, 3),
-                                "a\nb", "\u0301e", "😀" * rng.randint(0, 4), "abcd", "abcde", "abc"])
+                                "a\nb", "\u0301e", "😀" * rng.randint(0, 4), "abcd", "abcde", "abc", False, False, [], ""])
                     for _ in range(rng.randint(0, 8))]
             c = {"fn": "width", "values": vals}
             if rng.random() < 0.08:
@@ -612,6 +619,9 @@ def run(ctx):
                    {"fn": "collect", "rows": [[j, str(j)] for j in range(5000)], "kinds": ["t"] * 5000, "cols": [1, 0], "limit": 4999},
                    {"fn": "width", "values": ["x" * 10000, None, "y" * 9999]},
                    {"fn": "extract", "data": {"k%d" % i: i for i in range(500)}, "fields": ["k%d" % i for i in range(499, -1, -7)] + ["absent"]}])
+    # values that are false in a test but not null, some of them rendered longer than the floor: they are measured
+    evaluate(ctx, [{"fn": "width", "values": v} for v in ([False], [True, False, None], [0, False], ["", False, 0.0], [[], 0, ""], [False, "abcdef"],
+                                                          [{"__float__": "-0.0"}, False, None], [0], [""], [None, None])])
     # a ragged tail that lies beyond the limit is never read: safe
     evaluate(ctx, [{"fn": "collect", "rows": [[1, 2], [3, 4], [5]], "kinds": ["t", "t", "t"], "cols": [1], "limit": 2}])
     for w in UNSAFE_WITNESSES[: ctx.scale(2, 4)]:
@@ -625,6 +635,7 @@ def intensify(ctx):
     evaluate_sites(ctx, sites.random_public(ctx.rng, 5000))
     evaluate_sites(ctx, [sites.random_seq(ctx.rng, "i%d_%d" % (ctx.seed, k)) for k in range(3000)])
     evaluate_sites(ctx, [sites.keys_seq(ctx.rng, "i%d_%d" % (ctx.seed, k)) for k in range(2000)])
+    evaluate_sites(ctx, [sites.reuse_seq(ctx.rng, "i%d_%d" % (ctx.seed, k)) for k in range(3000)])
 
 
 def replay(ctx, case):
